@@ -607,6 +607,33 @@ theorem plain_batch_step_source_eq_model (N nAcc : Nat) (arr : List (Option Cand
     simp [logWeights]
   simp only [Gen.PoolTx.plain_batch_step, ← select_length_eq_countTrue _ x hlen, select_zipWith_eq_acceptMask]
 
+theorem zipWith_eq_acceptMask (lw : List EV) (c : EV) (lus : List EV) (h : lus.length = lw.length) :
+    List.zipWith (fun a b => EV.gt a b) (lw.map (fun w => EV.sub w c)) lus = acceptMask lw c lus := by
+  induction lw generalizing lus with
+  | nil => cases lus <;> simp [acceptMask]
+  | cons w ws ih =>
+    cases lus with
+    | nil => simp at h
+    | cons u us =>
+      simp only [List.map_cons, List.zipWith_cons_cons, acceptMask, acceptFlow, List.headD_cons, List.tail_cons]
+      rw [ih us (by simpa using h)]
+
+/-- one non-empty batch of the ACCUMULATING branch of `FlowProposal.populate`, generated from the source: samples and weights are
+appended, the constant is `max(nanmax(log_w), log_constant)`, and — when the gate `log_n_expected >= log_n` is open — the mask is
+`(log_weights − log_constant) > log_u` over ALL accumulated weights with the UPDATED constant, `n_accepted` its count; the loop is
+left when `n_proposed > max_samples`: exactly the step of the model's `accLoop` (`st2` / `st3`) -/
+theorem acc_batch_step_source_eq_model (g : Bool) (maxS nProp nAcc rands : Nat) (samples : List Cand) (lws : List EV) (c : EV)
+    (accept : Option (List Bool)) (x : List Cand) (lus : List EV) (hl : lus.length = (lws ++ logWeights x).length) :
+    Gen.PoolTx.acc_batch_step g maxS nProp nAcc rands samples lws c accept x (logWeights x) lus =
+      (let lws' := lws ++ logWeights x
+       let c' := pyMax (nanmax (logWeights x)) c
+       let acc := acceptMask lws' c' lus
+       (samples ++ x, lws', c', if g then some acc else accept, if g then countTrue acc else nAcc,
+        if g then rands + 1 else rands, decide (maxS < nProp))) := by
+  cases g
+  · simp [Gen.PoolTx.acc_batch_step]
+  · simp only [Gen.PoolTx.acc_batch_step, if_true, zipWith_eq_acceptMask _ _ _ hl]
+
 example : Gen.PoolTx.rejection_accept [.fin 0, .fin (-1), .ninf] [.fin (-1/2), .fin (-1/2), .ninf] [10, 11, 12] = [10] := by
   decide +kernel
 
